@@ -7,7 +7,7 @@ import numpy as np
 
 from checks import common, mahal
 from checks.common import case
-from symx import core, slicer, stubs
+from symx import core, slicer, stubs, harness
 from symx.npproxy import NP
 
 FUNCS = ['metric_learn.mmc._BaseMMC._fit_full: prologue (sliced) and main loop body (sliced, one cycle from an arbitrary state)',
@@ -20,7 +20,7 @@ def _mmc():
   return M
 
 
-class _Self:
+class _Self(harness.StandIn):
   def __init__(self, ctx, max_proj, tol):
     self.ctx = ctx
     self.max_proj, self.tol, self.verbose = max_proj, tol, False
@@ -210,7 +210,7 @@ def prologue_case(d, npos):
     y = np.array([1] * npos + [-1])
     ctx.assume(ctx.or_(*[ctx.ne(pairs[0, 0, c], pairs[0, 1, c]) for c in range(d)]))
 
-    class S:
+    class S(harness.StandIn):
       pass
     s = S()
     s.A_ = A0.copy()
@@ -280,7 +280,7 @@ def diag_case():
   return fn
 
 
-class _DSelf:
+class _DSelf(harness.StandIn):
   def __init__(self, ctx, d):
     self.ctx, self.d, self.n = ctx, d, 0
     self.tol, self.max_iter, self.verbose, self.diagonal_c = 0.001, 5, False, ctx.real('c')
